@@ -264,6 +264,14 @@ func (e *Engine) applyContract(s *State, f *Frame, x ssa.Instruction, callee *ss
 		resv = append(resv, v)
 		env[names[i]] = v
 	}
+	// ghost results: values that exist in the callee (its local variables of that name at return)
+	for _, g := range ct.Ghosts {
+		tv, err := types.Eval(e.fset, callee.Pkg.Pkg, callee.Pos(), g.TypeExpr)
+		if err != nil {
+			panic(execError{"ghost " + g.Name + ": cannot resolve type " + g.TypeExpr + ": " + err.Error()})
+		}
+		env[g.Name] = a.abstractValue(tv.Type, uniqueName("ghost."+key+"."+g.Name), nil)
+	}
 	for _, fc := range a.facts {
 		s.assume(fc)
 	}
@@ -472,6 +480,18 @@ func (e *Engine) atReturn(s *State, f *Frame, res []Value, pos token.Pos) {
 		}
 	}
 	c.names = nil
+	if len(ct.Ghosts) > 0 {
+		// ghost results are the function's own locals of that name
+		gn := map[string]nameRef{}
+		for _, g := range ct.Ghosts {
+			if v, ok := localNames[g.Name]; ok {
+				gn[g.Name] = v
+			} else {
+				panic(execError{"ghost result " + g.Name + " is not a local variable of " + funcKey(f.fn)})
+			}
+		}
+		c.names = gn
+	}
 	for k, cl := range ct.Ensures {
 		if !e.clauseApplies(cl) || cl.Tag == "deferred" {
 			continue
